@@ -872,6 +872,7 @@ PROFILES = {
     "agg": dict(mutate=3, mutate_window=2, filter=3, select=1, rename=1, arrange=2, group_by=5, ungroup=1, summarize=6, alias=2),
     "window": dict(mutate=2, mutate_window=6, filter=3, select=2, rename=1, arrange=3, slice=2, group_by=3, ungroup=2, alias=2),
     "join": dict(mutate=3, filter=3, select=2, rename=2, arrange=1, join=6, alias=2, union=2, mutate_window=1, summarize=1, group_by=1),
+    "union": dict(mutate=3, filter=3, select=2, drop=1, rename=2, arrange=1, slice=1, union=6, alias=1),
     "subquery": dict(mutate=2, mutate_window=4, filter=4, arrange=2, slice=4, group_by=3, summarize=4, alias=4, join=2, union=1, ungroup=1),
 }
 
